@@ -15,8 +15,8 @@ static void enc_mode(const char *fam, int alg, int pat, int maxlen)
     for (int a = 0; a <= maxlen; a++) for (int l = 0; l <= maxlen; l++) {
         size_t clen = l + 16, got = 0, got2 = 0;
         uint8_t *e = hx_buf(clen), *c = hx_buf(clen), *c2 = hx_buf(clen), *p = hx_buf(l);
-        if (isap) { ref_isap_encrypt(alg, key, nonce, ad, a, m, l, e); api_isap_enc[alg](c, &got, m, l, a ? ad : 0, a, nonce, &pk); api_isap_enc[alg](c2, &got2, m, l, a ? ad : 0, a, nonce, &pk); }
-        else { ref_siv_encrypt(alg, key, nonce, ad, a, m, l, e); api_siv_enc[alg](c, &got, m, l, a ? ad : 0, a, nonce, key); api_siv_enc[alg](c2, &got2, m, l, a ? ad : 0, a, nonce, key); }
+        if (isap) { ref_isap_encrypt(alg, key, nonce, ad, a, m, l, e); api_isap_enc[alg](c, &got, m, l, HX_OPT(ad, a), a, nonce, &pk); api_isap_enc[alg](c2, &got2, m, l, HX_OPT(ad, a), a, nonce, &pk); }
+        else { ref_siv_encrypt(alg, key, nonce, ad, a, m, l, e); api_siv_enc[alg](c, &got, m, l, HX_OPT(ad, a), a, nonce, key); api_siv_enc[alg](c2, &got2, m, l, HX_OPT(ad, a), a, nonce, key); }
         hx_stat("evaluations", 2); if (a + l) hx_stat("nontrivial", 1);
         if (got != clen || got2 != clen) hx_fail(kb, "reported length %zu != %zu adlen=%d mlen=%d", got, clen, a, l);
         else if (memcmp(c, e, clen)) { size_t i = 0; while (c[i] == e[i]) i++; hx_fail(kb, "ciphertext differs from documented construction at byte %zu adlen=%d mlen=%d pat=%d", i, a, l, pat); }
@@ -24,14 +24,14 @@ static void enc_mode(const char *fam, int alg, int pat, int maxlen)
         if (!hx_buf_ok(c, clen)) hx_fail(kb, "wrote outside output buffer adlen=%d mlen=%d", a, l);
         /* the C++ classes of the same modes, keyed by set_key and by the key constructor */
         for (int path = 0; path < 2; path++) {
-            int r2 = path ? cpp_encrypt_ctor(isap ? 3 : 2, alg, key, nonce, c2, m, l, a ? ad : 0, a) : cpp_encrypt(isap ? 3 : 2, alg, key, nonce, c2, m, l, a ? ad : 0, a);
+            int r2 = path ? cpp_encrypt_ctor(isap ? 3 : 2, alg, key, nonce, c2, m, l, HX_OPT(ad, a), a) : cpp_encrypt(isap ? 3 : 2, alg, key, nonce, c2, m, l, HX_OPT(ad, a), a);
             hx_stat("evaluations", 1);
             if (r2 != (int)clen || memcmp(c2, e, clen)) { char k2[96]; snprintf(k2, sizeof k2, "%s:cpp-%s", kb, path ? "key-constructor" : "set_key"); hx_fail(k2, "C++ class result (%d) differs from the documented construction adlen=%d mlen=%d", r2, a, l); }
             if (!hx_buf_ok(c2, clen)) hx_fail(kb, "C++ class wrote outside output buffer adlen=%d mlen=%d", a, l);
         }
         /* the reference's ciphertext must decrypt through the library */
         size_t pl = 0; int r;
-        if (isap) r = api_isap_dec[alg](p, &pl, e, clen, a ? ad : 0, a, nonce, &pk); else r = api_siv_dec[alg](p, &pl, e, clen, a ? ad : 0, a, nonce, key);
+        if (isap) r = api_isap_dec[alg](p, &pl, e, clen, HX_OPT(ad, a), a, nonce, &pk); else r = api_siv_dec[alg](p, &pl, e, clen, HX_OPT(ad, a), a, nonce, key);
         hx_stat("evaluations", 1);
         if (r != 0 || pl != (size_t)l || memcmp(p, m, l)) hx_fail(kb, "reference ciphertext not decrypted correctly (result %d) adlen=%d mlen=%d", r, a, l);
         if (!isap && l > 0) {
@@ -93,7 +93,7 @@ static void run_seq(const int *seq, int n)
             int a = op == 0 ? 0 : 9, l = op == 0 ? 0 : 17; api_isap_key *k = op == 6 ? &B : &A;
             if (op == 6 && !haveB) goto next;
             memcpy(exp, op == 0 ? exp00 : exp917, l + 16);
-            api_isap_enc[kalg](out, &ol, kmsg, l, a ? kad : 0, a, knonce, k);
+            api_isap_enc[kalg](out, &ol, kmsg, l, HX_OPT(kad, a), a, knonce, k);
             if (ol != (size_t)l + 16 || memcmp(out, exp, ol)) { seqstr(seq, i + 1, sb, sizeof sb); hx_fail(kb, "encryption with %s key differs from reference after history [%s]", op == 6 ? "loaded" : "original", sb); }
             break; }
         case 2: case 3: case 7: {
